@@ -197,3 +197,16 @@ CHECKS["C08"] = {
         {"bin": "asan/C08", "cases": P(10000, 100000), "procs": P(8, 16), "size": 70, "shrink_budget": 300},
     ],
 }
+
+CHECKS["C17"] = {
+    "level": "exploration",
+    "technique": "structure-aware fuzzing of the download callbacks: fuzzed header lines (boundary parameters with metacharacters/quotes/empty/16 KiB/NUL) x fuzzed bodies (mutated correct responses, structured parts with fuzzed boundary lines and content-range numbers, noise) x fragmentations x two delivery modes (transport stops at first error / pass-through keeps delivering), in forked children under ASan/UBSan with CPU limit; post-condition oracle = C05's verification and confinement against reference digests and a snapshot; also a libFuzzer campaign over the same property",
+    "level_text": "Each case drives zck_header_cb and zck_write_chunk_cb with generated header lines and body fragments on a real target with a real missing-range request, in both delivery modes the public API allows, optionally followed by zck_dl_reset and a well-formed second response on the same context. Any sanitizer report, signal or CPU overrun is a violation; afterwards valid chunks must hash correctly and no byte outside the requested extents may differ from the snapshot. Fuzzing never shows absence.",
+    "level_note": "Trusted: generator's chunk table and reference digests. Leaks out of scope.",
+    "rule": "case = (target pattern, limit, delivery mode, header lines, body, cuts, optional second round). Non-trivial = a boundary was extracted from the header lines AND the part-header pattern was built (the multipart state machine ran); distinct by choice-sequence hash.",
+    "assumptions": ["fragments are at most 16 KiB, header lines arrive one per header callback"],
+    "runs": [
+        {"bin": "asan/C17", "cases": P(6000, 100000), "procs": P(8, 16), "size": 70, "cpu_limit": 40, "shrink_budget": 250},
+        {"kind": "fuzz", "bin": "asan/fuzz_C17", "cases": P(40000, 1500000), "procs": P(4, 16), "max_len": 6000},
+    ],
+}
